@@ -309,6 +309,29 @@ pub fn scenarios(tier: Tier) -> Vec<LinkScenario<fn() -> Box<dyn Probe>>> {
             probe: (|| Box::new(TimingProbe::new()) as Box<dyn Probe>) as fn() -> Box<dyn Probe>,
         });
     }
+    // link outage of 3.4 s at tick lengths that are not a divisor of the resend time: while nothing is acknowledged,
+    // retransmissions stay at least a resend time apart also across the moment (3 s) at which the sent-packet
+    // records of the first transmissions are written off as lost
+    for dt in [16u64, 70, 110, 250] {
+        for dir in 0..2usize {
+            if dir == 1 && dt != 16 {
+                continue;
+            }
+            let n = (3400u64.div_ceil(dt)) as u32;
+            let mut cfg = LinkCfg::base(&format!("outage of {} ticks of {} ms from tick 1, script 1+2401 dir{}", n, dt, dir), chans(), chans());
+            cfg.dt_ms = vec![dt];
+            cfg.horizon = 1;
+            cfg.outage = Some((1, 1 + n));
+            cfg.tail = n + (700 / dt) as u32 + 4;
+            cfg.drains = vec![Drain::End];
+            cfg.fates = vec![Fate::Ok, Fate::Drop, Fate::Dup, Fate::Delay1, Fate::Delay2];
+            cfg.script = vec![Send::at(0, dir, 0, 1), Send::at(0, dir, 0, 2401), Send::at(0, dir, 1, 1)];
+            out.push(LinkScenario {
+                cfg,
+                probe: (|| Box::new(TimingProbe::new()) as Box<dyn Probe>) as fn() -> Box<dyn Probe>,
+            });
+        }
+    }
     out
 }
 
